@@ -5,6 +5,7 @@ mod hcobs_fam;
 mod iovw;
 mod readn;
 mod sdq;
+mod seqlock;
 mod sod;
 mod stream;
 mod tlvv;
@@ -44,6 +45,7 @@ fn main() {
             "readn" => readn::run(line),
             "hint" => readn::run_hint(line),
             "sdq" => sdq::run(line),
+            "seq" => seqlock::run(line),
             "sod" => sod::run(line),
             "tlvv" => tlvv::run(line),
             "tlvw" => tlvw::run(line),
